@@ -579,17 +579,18 @@ def unit(root='/repo'):
              ensures=VP.pseudo_clauses(VP.PSEUDO_RESTORE_ENS, T, T0, T1)
              + ['r is Ok && %s.is_fresh() && ptree_img_wf(old(buf)@) ==> final(self).wf(*final(hp)) && final(self).closed() // [C19.pseudo.restore.wf]' % T0,
                 'final(buf)@ == old(buf)@'],
-             splices=[('self.restore_from_state(&state, Tracked(hp))', 'before', '''proof {
+             # the tail call is bound to a name so that the uniqueness lemma can be applied to the state it leaves (same value returned)
+             splices=[('self.restore_from_state(&state, Tracked(hp))', 'replace', '''let ghost h0 = *hp; let res_ = self.restore_from_state(&state, Tracked(hp));
+            proof {
                 assert(buf@.take(buf@.len() as int) =~= buf@);
                 let d = snap_dec::<PseudoFsState>(buf@)->Some_0;
                 assert(state.next_inode == d.1.next_inode && stvs(state.inodes@) == d.1.inodes);
-                if listing_wf(d.1.inodes) {
-                    // a listing describes at most one tree: whatever restore_from_state builds from it IS ptree_dec of the image
-                    assert forall|t: PTree| #[trigger] tree_matches(t, d.1.next_inode, d.1.inodes) implies Some(t) == ptree_dec(buf@) by {
-                        lemma_tree_unique(t, ptree_dec(buf@)->Some_0, d.1.next_inode, d.1.inodes);
-                    }
+                if res_ is Ok && listing_wf(d.1.inodes) && old(self).tree(h0).is_fresh() {
+                    // a listing describes at most one tree: what restore_from_state has built IS ptree_dec of the image
+                    lemma_tree_unique(self.tree(*hp), ptree_dec(buf@)->Some_0, d.1.next_inode, d.1.inodes);     // [C19.pseudo.restore.tree]
                 }
-            }''')])
+            }
+            res_''')])
     rfb.rules, rfb.ghost_token = ('R23',), dict(TOK, callees=['restore_from_state'])
     HOIST = (r'for inode in self\.inodes\.load\(\)\.values\(\) \{', 'let inodes_guard = self.inodes.load(); for inode in inodes_guard.values() {',
              'the temporary of the `for` iterator expression (it lives for the whole loop) bound to a name: Verus binds the iterator itself with `let`')
